@@ -782,6 +782,85 @@ func comparatorShape(cmp *ssa.Function) string {
 		return rec(v)
 	}
 	why := ""
+	// factOf: what a (flattened) branch condition says about a projection: the projection's shape, the relation between the
+	// first and the second element's projection, and whether the relation holds or is excluded
+	type cmpFact struct {
+		proj string
+		op   token.Token
+		pol  bool
+	}
+	factOf := func(fg Guard) (cmpFact, bool) {
+		bo, ok := fg.Cond.(*ssa.BinOp)
+		if !ok {
+			return cmpFact{}, false
+		}
+		s0, w0 := shape(bo.X, 0)
+		s1, w1 := shape(bo.Y, 0)
+		if s0 == s1 && w0 == 0 && w1 == 1 {
+			return cmpFact{s0, bo.Op, fg.Pol}, true
+		}
+		if s0 == s1 && w0 == 1 && w1 == 0 {
+			return cmpFact{s0, mirrorOp(bo.Op), fg.Pol}, true
+		}
+		// a three-way result compared with zero
+		res, k := bo.X, bo.Y
+		op := bo.Op
+		if _, isK := res.(*ssa.Const); isK {
+			res, k, op = bo.Y, bo.X, mirrorOp(bo.Op)
+		}
+		if z, isK := constInt(k); isK && z == 0 {
+			if c, ok := res.(*ssa.Call); ok && len(c.Call.Args) == 2 {
+				a0, wa := shape(c.Call.Args[0], 0)
+				a1, wb := shape(c.Call.Args[1], 0)
+				if a0 == a1 && wa == 0 && wb == 1 {
+					return cmpFact{a0, op, fg.Pol}, true
+				}
+				if a0 == a1 && wa == 1 && wb == 0 {
+					return cmpFact{a0, mirrorOp(op), fg.Pol}, true
+				}
+			}
+		}
+		return cmpFact{}, false
+	}
+	equalBy := func(fs []cmpFact) bool {
+		notLess, notGreater := false, false
+		for _, f := range fs {
+			switch {
+			case f.op == token.EQL && f.pol, f.op == token.NEQ && !f.pol:
+				return true
+			case f.op == token.LSS && !f.pol, f.op == token.GEQ && f.pol:
+				notLess = true
+			case f.op == token.GTR && !f.pol, f.op == token.LEQ && f.pol:
+				notGreater = true
+			}
+		}
+		return notLess && notGreater
+	}
+	// lexicographic discipline: a comparison of one projection may be consulted only once every projection compared on
+	// the way there is known to be equal — `a.T < b.T || a.ID < b.ID` consults the ids of elements whose types differ
+	forEachInstr(cmp, func(in ssa.Instruction) {
+		iff, ok := in.(*ssa.If)
+		if !ok || why != "" {
+			return
+		}
+		here, ok := factOf(flattenGuard(Guard{Cond: iff.Cond, Pol: true}))
+		if !ok {
+			return
+		}
+		earlier := map[string][]cmpFact{}
+		for _, g := range guardsAt(iff.Block()) {
+			for _, x := range expandGuard(g, 0) {
+				if f, ok := factOf(flattenGuard(x)); ok && f.proj != here.proj {
+					earlier[f.proj] = append(earlier[f.proj], f)
+				}
+			}
+		}
+		for proj, fs := range earlier {
+			if !equalBy(fs) {
+				why = "the comparison of " + here.proj + " is consulted while " + proj + " has only been shown not to be in one order, not to be equal: for two elements that differ in " + proj + " both cmp(a,b) and cmp(b,a) can come out the same"
+			}
+		}
+	})
 	forEachInstr(cmp, func(in ssa.Instruction) {
 		iff, ok := in.(*ssa.If)
 		if !ok || why != "" {
